@@ -85,6 +85,7 @@ class Ctx:
     trusted: list = field(default_factory=list)
     coq_secs: float = 0.0
     log_lines: list = field(default_factory=list)
+    max_reported: int = 5  # distinct new violation signatures printed per run (a property module may raise it)
 
     @property
     def quick(self) -> bool:
@@ -592,7 +593,7 @@ def finish(ctx: Ctx, level_text: str = "") -> int:
         if key in seen_sig:
             continue
         seen_sig.add(key)
-        if len(seen_sig) > 5:
+        if len(seen_sig) > ctx.max_reported:
             break
         p = write_replay(ctx, f"{v.clause}_{len(seen_sig)}", dict(
             kind="input", clause=v.clause, case=v.case, impl_observed=v.observed,
